@@ -183,6 +183,13 @@ def hyp_run(ctx, res, strategy, body, max_examples, label='', max_buckets=None,
         budget = max_examples if attempt == 0 else max(max_examples // 2, 50)
 
         def test(case):
+            key = None
+            if state['t_first'] is not None and time.time() - state['t_first'] > shrink_budget_s:
+                # shrink budget used up: only cases already known to fail are executed again (Hypothesis
+                # re-runs its best example at the end); everything else passes without being run
+                key = sha(case)
+                if key not in state['failing']:
+                    return
             try:
                 body(case)
             except Violation as v:
@@ -197,11 +204,7 @@ def hyp_run(ctx, res, strategy, body, max_examples, label='', max_buckets=None,
                     state['t_first'] = time.time()
                 if v.bucket != state['bucket']:
                     return      # stay on one root cause while shrinking
-                key = sha(v.case)
-                if time.time() - state['t_first'] > shrink_budget_s \
-                        and key not in state['failing']:
-                    return      # shrink budget used up: only re-confirm known cases
-                state['failing'].add(key)
+                state['failing'].add(key or sha(case))
                 raise
 
         test.__name__ = 'check_%s_%s' % (ctx.prop, ''.join(ch if ch.isalnum() else '_' for ch in (label or 'case')))
